@@ -94,6 +94,14 @@ def fireEndViaSource (s : St) : St × Reply :=
     let x := runPrims (afterCall Gen.onTimeoutOps) { s := s, c := c, key := (s.caches c).ident }
     ({ x.s with running := none, runReg := false }, .fired c)
 
+/-- `cache.on_timeout()` has raised: only the `finally` blocks around the call run, then the task finishes -/
+def fireAbortViaSource (s : St) : St × Reply :=
+  match s.running with
+  | none => (s, .refused)
+  | some c =>
+    let x := runPrims Gen.onTimeoutAbortOps { s := s, c := c, key := (s.caches c).ident }
+    ({ x.s with running := none, runReg := false }, .aborted c)
+
 def clearViaSource (s : St) : St × Reply :=
   result (runPrims Gen.clearOps { s := s, c := 0, key := (0, 0) })
 
